@@ -46,7 +46,7 @@ def main():
         })
     man = {
         "version": 1,
-        "setup_cmd": "cd lean && lake build QclibModel QclibModel.Model.All",
+        "setup_cmd": "cd lean && lake build",
         "hooks": {
             "guard": "QCLIB_VERIF",
             "enable": "no source hooks are needed: checks import qclib from /repo's working tree and read gate lists / intermediates through its public functions",
